@@ -164,10 +164,56 @@ def oracle_rule_history(ctx, case, res, fail):
                             "rule-history")
 
 
+_POLICY_DATA = [None]
+
+
+def policy_lists(op_key, cfg):
+    """does the DEFAULT policy, read as data (the JSON text: named configs with lists of admissible values, and the operators listed per
+    config), list this config for this operator? An independent reading: no unrolled table, no library matcher."""
+    if _POLICY_DATA[0] is None:
+        from ai_edge_quantizer import default_policy
+        _POLICY_DATA[0] = json.loads(default_policy.DEFAULT_JSON_POLICY)
+    pol = _POLICY_DATA[0]
+    val = lambda x: str(getattr(x, "value", x))   # noqa: E731
+
+    def tmatch(spec, t):
+        if spec is None or t is None:
+            return spec is None and t is None
+        as_list = lambda x: x if isinstance(x, list) else [x]   # noqa: E731
+        return (t.num_bits in as_list(spec["num_bits"]) and bool(t.symmetric) in as_list(spec["symmetric"])
+                and val(t.granularity) in as_list(spec["granularity"]) and val(t.dtype) in as_list(spec.get("dtype", "INT"))
+                and not getattr(t, "block_size", 0))
+
+    for name, ops in pol["ops_per_config"].items():
+        if op_key not in ops:
+            continue
+        c = pol["configs"][name]
+        if (val(cfg.compute_precision) == c["compute_precision"] and bool(cfg.explicit_dequantize) == bool(c["explicit_dequantize"])
+                and tmatch(c.get("activation_tensor_config"), cfg.activation_tensor_config)
+                and tmatch(c.get("weight_tensor_config"), cfg.weight_tensor_config)):
+            return True
+    return False
+
+
 def oracle_c03(ctx, case, res, fail):
     """every operand of every original op has the dtype its resolved mode prescribes"""
     mi, mo = pl.read(case.mb), pl.read(res["out"])
     q = res["q"]
+    # "an operator given a config it does not support stays untouched": whatever resolution says, an operator may only run in a quantized
+    # mode under a config the policy DATA lists for it (rules with skip_checks, float16 casting and custom policies aside)
+    if ACTIVE_POLICY[0] is None and not res.get("policy") and not any(c.get("k") == "policy" for c in (getattr(case, "late", None) or [])):
+        for gi in mi.subgraphs:
+            for a in gi.operators:
+                key = op_key_of(mi.operatorCodes[a.opcodeIndex].builtinCode)
+                if key is None:
+                    continue
+                scope = "".join(pl.tname(gi.tensors[t]) + ";" for t in a.outputs if t != -1)
+                mode, cfg = mode_of(q, key, scope)
+                if mode in ("srq", "drq", "wo") and not getattr(cfg, "skip_checks", False):
+                    ctx.tag("policy_data_checked")
+                    if not policy_lists(key, cfg):
+                        return fail(f"operator {key} (scope {scope!r}) is run in mode {mode} under a config the policy does not list for it: "
+                                    f"{json.dumps(cfg.to_dict(), default=str, sort_keys=True)[:300]}", "unsupported-config-selected")
     for si, (gi, go) in enumerate(zip(mi.subgraphs, mo.subgraphs)):
         kept, inserted = kept_ops(mi, mo, si)
         if len(kept) != len(gi.operators):
